@@ -221,6 +221,14 @@ def coreLine (w : World) (ws : List String) : Option (World × String) :=
        match openOn h.disk none with
        | .error e => some (w.set name { h with core := none, subs := 0 }, s!"{failTxt e} j=[]")
        | .ok (c, j) => some (w.set name { h with core := some c, subs := 0, disk := h.disk.applyAll j }, s!"ok j={jTxt j}"))
+  | ["rebuild", name, seed] =>
+    -- build (not open) on existing storage with a caller-supplied key pair
+    (match unhex seed, w.get? name with
+     | some sd, some h =>
+       (match openOn h.disk (some (C.publicKey sd, some sd)) with
+        | .error e => some (w.set name { h with core := none, subs := 0 }, s!"{failTxt e} j=[]")
+        | .ok (c, j) => some (w.set name { h with core := some c, subs := 0, disk := h.disk.applyAll j }, s!"ok j={jTxt j}"))
+     | _, _ => some (w, "nocore"))
   | ["ro", name] =>
     (match w.get? name with
      | none => some (w, "nocore")
